@@ -179,8 +179,8 @@ func (v Vout) coq() (string, bool) {
 		return "None", true
 	}
 	f, ok := v.value()
-	if !ok || !amountComparable(f) || v.SPK.Mode == Mistyped || v.SPK.Hex.Mode == Mistyped {
-		return "", false
+	if !ok || !amountComparable(f) || v.SPK.Mode == Mistyped || v.SPK.Hex.Mode == Mistyped || v.N < 0 {
+		return "", false // (a negative "n" is outside the model's natural-number field: Go-level predicates only)
 	}
 	spk := "None"
 	if v.SPK.Mode == Present {
@@ -433,6 +433,16 @@ func All(r *common.Rand, big bool, validTx []byte) []Doc {
 		t := base()
 		t.Vout[0].ValueRaw = a
 		addNode("node/value", t)
+	}
+	// the position a node reports for an output ("n") is data like any other: negative, repeated, out of range, permuted
+	for _, n := range []int{-1, -2, -1 << 31, -1 << 63, 1, 7, 1 << 31, 1<<63 - 1} {
+		t := base()
+		t.Vout[0].N = n
+		addNode("node/vout.n", t)
+		t = base()
+		t.Vout = append(t.Vout, goodVout, goodVout)
+		t.Vout[1].N, t.Vout[2].N = n, 0
+		addNode("node/vout.n", t)
 	}
 	{
 		t := base()
